@@ -322,10 +322,193 @@ fn tables() {
     print!("{out}");
 }
 
+/// Collects every item carrying `#[derive_ex(..)]` from Rust sources (also inside function bodies) and from the
+/// ```rust blocks of markdown files: one corpus line `ARGS \t ITEM` per item (attribute-macro form).
+fn corpus(files: &[String]) {
+    use quote::ToTokens;
+    use syn::visit::Visit;
+    struct V(Vec<(String, String)>);
+    fn take(attrs: &mut Vec<syn::Attribute>) -> Option<String> {
+        let i = attrs.iter().position(|a| a.path().is_ident("derive_ex"))?;
+        let a = attrs.remove(i);
+        match &a.meta {
+            syn::Meta::List(l) => Some(l.tokens.to_string()),
+            _ => Some(String::new()),
+        }
+    }
+    impl<'ast> Visit<'ast> for V {
+        fn visit_item_struct(&mut self, i: &'ast syn::ItemStruct) {
+            let mut i = i.clone();
+            if let Some(a) = take(&mut i.attrs) { self.0.push((a, i.to_token_stream().to_string())); }
+        }
+        fn visit_item_enum(&mut self, i: &'ast syn::ItemEnum) {
+            let mut i = i.clone();
+            if let Some(a) = take(&mut i.attrs) { self.0.push((a, i.to_token_stream().to_string())); }
+        }
+        fn visit_item_impl(&mut self, i: &'ast syn::ItemImpl) {
+            let mut i2 = i.clone();
+            if let Some(a) = take(&mut i2.attrs) { self.0.push((a, i2.to_token_stream().to_string())); }
+            syn::visit::visit_item_impl(self, i);
+        }
+    }
+    let mut v = V(Vec::new());
+    for f in files {
+        let Ok(text) = std::fs::read_to_string(f) else { continue };
+        let mut sources: Vec<String> = Vec::new();
+        if f.ends_with(".md") {
+            let mut cur: Option<String> = None;
+            for line in text.lines() {
+                if line.trim_start().starts_with("```") {
+                    if let Some(c) = cur.take() { sources.push(c); } else if line.contains("rust") || line.trim() == "```" { cur = Some(String::new()); }
+                } else if let Some(c) = cur.as_mut() {
+                    let l = line.strip_prefix("# ").unwrap_or(if line == "#" { "" } else { line });
+                    c.push_str(l);
+                    c.push('\n');
+                }
+            }
+        } else {
+            sources.push(text);
+        }
+        for src in sources {
+            if let Ok(file) = syn::parse_file(&src) { v.visit_file(&file); }
+        }
+    }
+    for (a, i) in v.0 {
+        println!("{}\t{}", a.replace('\n', " ").replace('\t', " "), i.replace('\n', " ").replace('\t', " "));
+    }
+}
+
+struct Rng(u64);
+impl Rng {
+    fn next(&mut self) -> u64 {
+        self.0 = self.0.wrapping_add(0x9E3779B97F4A7C15);
+        let mut z = self.0;
+        z = (z ^ (z >> 30)).wrapping_mul(0xBF58476D1CE4E5B9);
+        z = (z ^ (z >> 27)).wrapping_mul(0x94D049BB133111EB);
+        z ^ (z >> 31)
+    }
+    fn below(&mut self, n: usize) -> usize { if n == 0 { 0 } else { (self.next() % n as u64) as usize } }
+}
+
+/// structure-aware mutation of a token stream: delete / duplicate / swap token trees at a random depth, or splice in
+/// token trees from a donor stream
+fn mutate(ts: TokenStream, donor: &TokenStream, rng: &mut Rng, depth: usize) -> TokenStream {
+    let mut tts: Vec<TokenTree> = ts.into_iter().collect();
+    // descend into a group with some probability
+    let groups: Vec<usize> = tts.iter().enumerate().filter(|(_, t)| matches!(t, TokenTree::Group(_))).map(|(i, _)| i).collect();
+    if !groups.is_empty() && depth < 6 && rng.below(3) != 0 {
+        let gi = groups[rng.below(groups.len())];
+        if let TokenTree::Group(g) = &tts[gi] {
+            let inner = mutate(g.stream(), donor, rng, depth + 1);
+            tts[gi] = TokenTree::Group(proc_macro2::Group::new(g.delimiter(), inner));
+        }
+        return tts.into_iter().collect();
+    }
+    let n = tts.len();
+    match rng.below(6) {
+        0 if n > 0 => { tts.remove(rng.below(n)); }
+        1 if n > 0 => { let i = rng.below(n); let t = tts[i].clone(); tts.insert(i, t); }
+        2 if n > 1 => { let i = rng.below(n); let j = rng.below(n); tts.swap(i, j); }
+        3 => {
+            let d: Vec<TokenTree> = donor.clone().into_iter().collect();
+            if !d.is_empty() { let i = rng.below(n + 1); tts.insert(i, d[rng.below(d.len())].clone()); }
+        }
+        4 if n > 0 => {
+            // delete a run (an attribute is `#` + `[..]`, an argument is several trees up to a comma)
+            let i = rng.below(n); let k = 1 + rng.below(3.min(n - i));
+            tts.drain(i..i + k);
+        }
+        _ if n > 0 => {
+            // duplicate a run
+            let i = rng.below(n); let k = 1 + rng.below(3.min(n - i));
+            let run: Vec<TokenTree> = tts[i..i + k].to_vec();
+            for (o, t) in run.into_iter().enumerate() { tts.insert(i + k + o, t); }
+        }
+        _ => {}
+    }
+    tts.into_iter().collect()
+}
+
+fn fuzz(corpus_path: &str, seed: u64, iters: u64, out_path: &str) {
+    std::panic::set_hook(Box::new(|_| {}));
+    let text = std::fs::read_to_string(corpus_path).expect("corpus");
+    let seeds: Vec<(TokenStream, TokenStream)> = text.lines().filter_map(|l| {
+        let (a, i) = l.split_once('\t')?;
+        Some((TokenStream::from_str(a).ok()?, TokenStream::from_str(i).ok()?))
+    }).collect();
+    let mut out = std::io::BufWriter::new(std::fs::File::create(out_path).unwrap());
+    let mut rng = Rng(seed.wrapping_mul(0x2545F4914F6CDD1D) ^ 0x1234567);
+    let (mut tried, mut valid, mut ok, mut errs, mut bad) = (0u64, 0u64, 0u64, 0u64, 0u64);
+    let mut kinds: BTreeMap<String, u64> = BTreeMap::new();
+    while tried < iters && !seeds.is_empty() {
+        tried += 1;
+        let (a0, i0) = &seeds[rng.below(seeds.len())];
+        let (da, di) = &seeds[rng.below(seeds.len())];
+        let mut a = a0.clone();
+        let mut i = i0.clone();
+        for _ in 0..1 + rng.below(3) {
+            if rng.below(3) == 0 { a = mutate(a, da, &mut rng, 0); } else { i = mutate(i, di, &mut rng, 0); }
+        }
+        // the property speaks about syntactically valid items: anything else is not an input of the macro
+        if syn::parse2::<syn::Item>(i.clone()).is_err() { continue; }
+        valid += 1;
+        let derive_form = rng.below(3) == 0;
+        let c = if derive_form {
+            Case { id: String::new(), tags: vec![], entry: "derive".into(), args: String::new(),
+                   item: format!("# [ derive_ex ( {} ) ] {}", a, i), segs: vec![] }
+        } else {
+            Case { id: String::new(), tags: vec![], entry: "attr".into(), args: a.to_string(), item: i.to_string(), segs: vec![] }
+        };
+        // a mutated stream that does not survive printing and re-lexing (e.g. a split lifetime token) is not source text
+        if TokenStream::from_str(&c.item).is_err() || TokenStream::from_str(&c.args).is_err() { valid -= 1; continue; }
+        if derive_form && syn::parse2::<syn::DeriveInput>(TokenStream::from_str(&c.item).unwrap_or_default()).is_err() { valid -= 1; continue; }
+        let r1 = expand_real(&c);
+        let r2 = expand_real(&c);
+        let mut problem: Option<(String, String)> = None;
+        match (r1, r2) {
+            (Err(e), _) | (_, Err(e)) => problem = Some(("panic".into(), e)),
+            (Ok(x), Ok(y)) => {
+                if x.to_string() != y.to_string() {
+                    problem = Some(("nondet".into(), x.to_string()));
+                } else {
+                    match syn::parse2::<syn::File>(x.clone()) {
+                        Err(e) => problem = Some(("parse".into(), format!("{e}: {x}"))),
+                        Ok(f) => {
+                            if f.items.iter().any(|it| compile_error_msg(it).is_some()) { errs += 1; } else { ok += 1; }
+                            if f.items.iter().any(|it| compile_error_msg(it).map(|m| m.is_empty()).unwrap_or(false)) {
+                                problem = Some(("empty-message".into(), x.to_string()));
+                            }
+                        }
+                    }
+                }
+            }
+        }
+        if let Some((k, detail)) = problem {
+            bad += 1;
+            *kinds.entry(k.clone()).or_default() += 1;
+            if bad <= 20 {
+                let _ = writeln!(out, "{{\"kind\":{},\"entry\":{},\"args\":{},\"item\":{},\"detail\":{}}}",
+                                 esc(&k), esc(&c.entry), esc(&c.args), esc(&c.item), esc(&detail.chars().take(600).collect::<String>()));
+            }
+        }
+    }
+    let ks: Vec<String> = kinds.iter().map(|(k, v)| format!("{}:{v}", esc(k))).collect();
+    let _ = writeln!(out, "{{\"summary\":true,\"seeds\":{},\"tried\":{tried},\"valid_inputs\":{valid},\"expanded_ok\":{ok},\"answered_with_error\":{errs},\"problems\":{bad},\"kinds\":{{{}}}}}",
+                     seeds.len(), ks.join(","));
+}
+
 fn main() {
     let args: Vec<String> = std::env::args().collect();
     if args.len() == 2 && args[1] == "tables" {
         tables();
+        return;
+    }
+    if args.len() >= 3 && args[1] == "corpus" {
+        corpus(&args[2..]);
+        return;
+    }
+    if args.len() == 6 && args[1] == "fuzz" {
+        fuzz(&args[2], args[3].parse().unwrap_or(1), args[4].parse().unwrap_or(1000), &args[5]);
         return;
     }
     if args.len() < 3 {
